@@ -33,30 +33,28 @@ theorem new_of_check {w : WM} {e : Handle} {cs : List CompId} (h : newb w e cs =
 
 def targetOkb (w : WM) (e : Handle) : Bool :=
   match (w.locOf e).arch with
-  | some pi => decide ((w.locOf e).idx < (w.arch pi).rows.length) &&
-      (closedMask w.deps (w.arch pi).mask == (w.arch pi).mask)
+  | some pi => decide ((w.locOf e).idx < (w.arch pi).rows.length)
   | none => true
 
-theorem targetOK_of_check {w : WM} {e : Handle} (hk : KeysOK w) (h : targetOkb w e = true) (pi : Nat)
+theorem targetOK_of_check {w : WM} {e : Handle} (h : targetOkb w e = true) (pi : Nat)
     (hpi : (w.locOf e).arch = some pi) : TargetOK w e pi := by
   unfold targetOkb at h
   rw [hpi] at h
-  simp only [Bool.and_eq_true, decide_eq_true_eq, beq_iff_eq] at h
-  exact ⟨h.1, h.2, fun aj haj hm hd => hk.distinct aj pi haj (lt_archs_of_rows h.1) hm hd⟩
+  exact ⟨by simpa using h⟩
 
 def packOkb (w : WM) : List Cmd → Bool
   | [] => true
   | (.create _ m _) :: _ => sortedb m
   | first :: _ => !w.isValid first.entity || targetOkb w first.entity
 
-theorem packLifeOK_of_check {w : WM} (hk : KeysOK w) (pack : List Cmd) (h : packOkb w pack = true) :
+theorem packLifeOK_of_check {w : WM} (pack : List Cmd) (h : packOkb w pack = true) :
     PackLifeOK w pack := by
   have hnc : ∀ first : Cmd, (!w.isValid first.entity || targetOkb w first.entity) = true →
       (w.isValid first.entity = true → ∀ pi, (w.locOf first.entity).arch = some pi →
         TargetOK w first.entity pi) := by
     intro first h' hv pi hpi
     rw [hv] at h'
-    exact targetOK_of_check hk (by simpa using h') pi hpi
+    exact targetOK_of_check (by simpa using h') pi hpi
   cases pack with
   | nil => trivial
   | cons first rest =>
@@ -71,7 +69,7 @@ variable (info : CompId → CompInfo)
 
 def packsOkb : WM → List (List Cmd) → Bool
   | _, [] => true
-  | w, p :: ps => keysOKb w && packOkb w p && packsOkb (w.applyPack info p).1 ps
+  | w, p :: ps => packOkb w p && packsOkb (w.applyPack info p).1 ps
 
 theorem packsLifeOK_of_check (ps : List (List Cmd)) (w : WM) (h : packsOkb info w ps = true) :
     PacksLifeOK info w ps := by
@@ -79,7 +77,7 @@ theorem packsLifeOK_of_check (ps : List (List Cmd)) (w : WM) (h : packsOkb info 
   | nil => exact PacksLifeOK.nil w
   | cons p ps ih =>
     simp only [packsOkb, Bool.and_eq_true] at h
-    exact PacksLifeOK.cons w p ps (packLifeOK_of_check (keysOK_of_check h.1.1) p h.1.2) (ih _ h.2)
+    exact PacksLifeOK.cons w p ps (packLifeOK_of_check p h.1) (ih _ h.2)
 
 def opOkb (w : WM) : Op Handle → Bool
   | .create _ mask _ => sortedb mask
